@@ -930,7 +930,7 @@ class Analysis:
         self.ren_cases, self.ren_meta = [], []
         self.fs_cases, self.fs_meta = [], []
         self.stats = dict(outcomes={}, kinds={}, apply={}, styles={}, n_files=0, n_hunks=0, n_keys=0,
-                          module_renames=0, oob=0, empty_diffs=0, key_types={}, messages={})
+                          module_renames=0, oob=0, empty_diffs=0, key_types={}, messages={}, final_newline={})
 
     def bump(self, group, key, n=1):
         d = self.stats[group]
@@ -1095,6 +1095,7 @@ class Analysis:
         on_disk = task['files'].get(frm) if frm is not None else task['files'][task['main']]
         keys = f['keys']
         self.stats['n_keys'] += len(keys)
+        self.bump('final_newline', 'old %s -> new %s' % (old.endswith(('\n', '\r')), new.endswith(('\n', '\r'))))
         for k in keys:
             self.bump('key_types', k['type'])
         where = lambda extra: self.where(task, op, dict(file=frm, **extra))  # noqa: E731
@@ -1172,12 +1173,18 @@ class Analysis:
         if hdr is not None:
             self.stats['n_hunks'] += len(hunks)
             py = py_apply(norm_lines(old), hunks)
+        if hdr is not None and py != norm_lines(new):
+            # harness applier on every case (the verified applier in Coq sees the time-boxed subset)
+            ctx.deviation(dict(stream='diff', cls='diff-does-not-transform', kind=kind, applier='harness'),
+                          where(dict(new_code=new, diff=f['file_diff'],
+                                     applied=None if py is None else ''.join(py)[-200:])),
+                          'get_diff() applied to the old lines does not give get_new_code() (harness applier)')
         self.file_cases.append('(%s, %s, %s, %s, %s, %s)' % (
             g_tree_p(tree), g_list(m, lambda e: '(%s, %s)' % (g_kpath(e[0]), g_str(e[1])), 'kpath * str'),
             g_str(new), g_nat(len(eff)), g_list(hunks, g_hunk, 'hunk'), g_bool(hdr is not None)))
         self.file_meta.append(dict(task=task, op=op, file=frm, old=old, new=new, hunks=hunks, map=m, n_eff=len(eff),
                                    py_applies=(py == norm_lines(new)) if hdr is not None else None,
-                                   diff=f['file_diff'], size=len(old) + len(new)))
+                                   diff=f['file_diff'], size=len(old) + len(new), priority=task['name'].startswith('final-newline')))
         ctx.count('refactor', (key, frm), nontrivial=len(m) > 0)
 
     # ---- apply
@@ -1294,7 +1301,7 @@ class Analysis:
             mm = re.search(r'=\s*\((\w+),\s*(\w+),\s*(\w+)\)', detail)
             flags = mm.groups() if mm else ('?', '?', '?')
             where = self.where(mt['task'], mt['op'], dict(file=mt['file'], new_code=mt['new'], diff=mt['diff'], coq=flags))
-            if flags[2] == 'false':
+            if flags[2] == 'false' and mt['py_applies'] is not False:
                 # the property itself: the diff does not transform old into new
                 ctx.deviation(dict(stream='diff', cls='diff-does-not-transform', kind=mt['op']['kind'],
                                    py_applies=mt['py_applies']), where,
@@ -1304,7 +1311,7 @@ class Analysis:
                                                       'get_new_code() (the decomposition oracle on the real tree did not object)',
                                                  input=where), nofail=True)
         for i, mt in enumerate(self.file_meta):
-            if mt['py_applies'] is False and i not in fails:
+            if mt['py_applies'] is False and i not in fails and i < done:
                 ctx.violation('obligation', dict(what='harness applier and verified applier disagree', input=mt['diff']), nofail=True)
         fails, err = common.coq_failing(IMPORTS, PATH_FN, self.path_cases, shard=400)
         if err:
@@ -1361,6 +1368,34 @@ def build_tasks(ctx, root):
             if rng.random() < 0.3 and s2.endswith(('\n', '\r')):
                 s2 = s2.rstrip('\r\n')
             add('corpus:' + name, {'main.py': s2}, 'main.py', style, False, ctx.n(8, 14))
+    # fixed family (every run): {old with/without final newline} x {new with/without final newline}.
+    # old without / new with: extract_function up to the last `return`, inline of a definition on the
+    # last line; no refactoring is known that removes an existing final newline (the endmarker's
+    # prefix is kept), that cell is left to the seeded generator.
+    fam = [("def f(a):\n    b = a + 1\n    return b",
+            [dict(kind='extract_function', line=2, column=4, until_line=3, until_column=12),      # no NL -> NL
+             dict(kind='extract_function', line=2, column=0, until_line=3, until_column=12),
+             dict(kind='extract_variable', line=3, column=11),                                   # no NL -> no NL
+             dict(kind='inline', line=2, column=4), dict(kind='rename', line=1, column=6)]),
+           ("def f():\n    return x\nx = 1",
+            [dict(kind='inline', line=3, column=0), dict(kind='inline', line=2, column=11),       # no NL -> NL
+             dict(kind='rename', line=3, column=0), dict(kind='extract_variable', line=3, column=4)]),
+           ("def g():\n    return y * 2\ny = 3  # last",
+            [dict(kind='inline', line=3, column=0), dict(kind='extract_function', line=2, column=11, until_line=2, until_column=16)]),
+           ("class C:\n    def m(self, a):\n        t = a * 2\n        return t",
+            [dict(kind='extract_function', line=3, column=8, until_line=4, until_column=16),      # method, no NL -> NL
+             dict(kind='inline', line=3, column=8)])]
+    for fi, (src, fops) in enumerate(fam):
+        for with_nl in (False, True):
+            for style in ('lf', 'crlf'):
+                s2 = src + ('\n' if with_nl else '')
+                if style == 'crlf':
+                    s2 = s2.replace('\n', '\r\n')
+                for up in (True, False):
+                    ops = [dict(o, new_name='nn', apply=(up and j % 2 == 0)) for j, o in enumerate(fops)]
+                    tasks.append(dict(idx=len(tasks), name='final-newline:%d' % fi, files={'main.py': s2}, main='main.py',
+                                      style=style, multi=False, ops=ops, use_path=up, code_arg=not up, enc=None,
+                                      root=os.path.join(root, 't%d' % len(tasks))))
     # files in a declared source encoding other than UTF-8 (read from disk, always applied)
     for coding, codec in (('latin-1', 'latin-1'), ('cp1252', 'cp1252'), ('utf-8', 'utf-8')):
         src = ('# -*- coding: %s -*-\n# caf\xe9 \xfc\ntitle = "na\xefve"\ncount = 3\n'
@@ -1472,6 +1507,7 @@ def run(ctx):
     # every case.  A changed fingerprint of a modelled function triples the budget.
     order = list(range(len(an.file_cases)))
     ctx.rng.shuffle(order)
+    order.sort(key=lambda i: not an.file_meta[i].get('priority'))   # the fixed final-newline family first (stable)
     an.file_cases = [an.file_cases[i] for i in order]
     an.file_meta = [an.file_meta[i] for i in order]
     an.deadline = ctx.t0 + ctx.n(95, 700)
